@@ -1,7 +1,7 @@
 """world-level part of C10: which pairs a real trash-empty removes"""
 from ..readfamily import add_worlds
 
-CFG = {"cmds": ["empty"], "oracles": ("effects",), "violations": ("effects",), "profile": "mixed", "states": False}
+CFG = {"cmds": ["empty"], "oracles": ("effects",), "violations": ("effects",), "profile": "mixed", "states": False, "real_clock_every": 6}
 
 
 def add_world_level(ck, pid, tier, seed):
